@@ -38,6 +38,24 @@ CLAIMED = {
         text="For every subset of an n<=2/3 list being unresolvable/duplicate: TLC computes the allowed (status, warnings, effect) "
              "combinations; the recorded warnings, the set of elements present and whether each listed element moved must match one.",
         design="6/C06", technique="TLA+ model checked by TLC; exhaustive transition replay; TLC trace judge"),
+    "C07": dict(
+        text="spec/MosLife.tla: TLC checks Completed <=> a roDelete was merged (history variable), terminality as an action property and the "
+             "envelope invariants over every history up to depth 3/4 of a 14-message alphabet and over -simulate behaviours; every "
+             "behaviour is replayed on live objects (merge, re-merge, serialise-and-reload) and each step judged by TLC: completion "
+             "record = the merged roDelete, content unchanged, every later message of every class rejected with "
+             "MosCompletedMergeError and no change, reloaded object is a RunningOrder with the same completed flag.",
+        design="6/C07", technique="TLA+ history model checked by TLC (invariants + action property); behaviour replay on live objects; TLC trace judge"),
+    "C13": dict(
+        text="Behaviours of MosLife (two live running orders, message objects kept alive and re-merged) replayed on real objects: after "
+             "every step every message object must serialise as at parse time, a re-merged object must give a result allowed by "
+             "Merge for its ORIGINAL content, and each object's pre-state must equal its previous post-state (no change outside "
+             "its own steps).",
+        design="6/C13", technique="TLA+ history model; behaviour replay on live objects with aliasing observations; TLC trace judge (continuity)"),
+    "C14": dict(
+        text="Envelope invariants are TLC invariants of MosLife; on the code every visited state of every replayed behaviour is "
+             "serialised and re-read (reload step): same abstract tree (content digests), same serialisation, RunningOrder class, "
+             "same completed flag; envelope clause judged on every merge step.",
+        design="6/C14", technique="TLA+ history model checked by TLC; behaviour replay with reload steps; TLC trace judge"),
     "C12": dict(
         text="The `contained` clause over all bounded transitions of all 24 classes: a schema-shaped message never ends in a built-in exception.",
         design="6/C12", technique="TLA+ model checked by TLC; exhaustive transition replay; TLC trace judge"),
